@@ -198,8 +198,10 @@ fn etag_match(which: u8, has_etag: bool) {
         assert!(nm == Some(!(star || weak)), "C04: If-None-Match decision deviates (weak comparison, `*` matches)");
         assert!(any_match(&etag, &h) == Ok(true), "C04: If-Match decision without the header");
     }
-    kani::cover!(strong, "strong match");
-    kani::cover!(weak && !strong, "weak-only match");
+    if has_etag {
+        kani::cover!(strong, "strong match");
+        kani::cover!(weak && !strong, "weak-only match");
+    }
     kani::cover!(r == Some(2) && !weak, "two tags, no match");
 }
 
